@@ -12,6 +12,7 @@ import Cpf.Scan.Attrs
 import Cpf.Rules.RuleFile
 import Cpf.Rules.Ci
 import Cpf.Rules.Bundle
+import Cpf.Scan.Walk
 import Cpf.Generated.Grammar
 
 open Cpf.Query Cpf.Go Cpf.Generated
@@ -215,6 +216,30 @@ def handle (fields : List String) : List String :=
         match o with
         | some c => String.ofList c
         | none => "<undecodable>")
+  | "walk-model" :: root :: ents =>
+      -- ents: preorder of the tree below and including the root: "F" name lstatErr | "D" name lstatErr readErr nkids
+      let rec ent (fuel : Nat) (fs : List String) : Option (Cpf.Scan.Walk.Ent × List String) :=
+        match fuel, fs with
+        | 0, _ => none
+        | fuel + 1, "F" :: n :: le :: rest => some (.file n (le == "1"), rest)
+        | fuel + 1, "D" :: n :: le :: re :: k :: rest =>
+            let rec kids (m : Nat) (i : Nat) (fs : List String) (acc : List Cpf.Scan.Walk.Ent) : Option (List Cpf.Scan.Walk.Ent × List String) :=
+              match m, i with
+              | _, 0 => some (acc.reverse, fs)
+              | 0, _ => none
+              | m + 1, i + 1 =>
+                  match ent fuel fs with
+                  | some (e, rest') => kids m i rest' (e :: acc)
+                  | none => none
+            match kids (fs.length + 1) (k.toNat?.getD 0) rest [] with
+            | some (ks, rest') => some (.dir n (le == "1") (re == "1") ks, rest')
+            | none => none
+        | _, _ => none
+      match ent (ents.length + 1) ents with
+      | some (e, _) =>
+          let (files, err) := Cpf.Scan.Walk.getFiles (root.splitOn "/") e
+          (if err then "err" else "ok") :: files.map (fun p => "/".intercalate p)
+      | none => ["bad-tree"]
   | ["cond", q] =>
       match prepare q.toList with
       | .ok p =>
